@@ -216,6 +216,14 @@ fn history(acc: &mut Acc, r: &mut Rng, steps: u64) {
         assets.push(AssetRef::Cw20(t));
     }
     let mut w = W18 { app, core: core.clone(), users, assets, pairs: vec![], trios: vec![], vaults: vec![], distributors: vec![core.distributor.clone()], lairs: vec![core.lair.clone()], grace_seen: BTreeMap::new(), ops: vec![], n_created: 0 };
+    // half of the histories start with a distributor that has already created epochs (a running system)
+    if r.chance(1, 2) {
+        advance(&mut w.app, 10, 3 * DAY_NS);
+        let n = crate::mon::c08::catch_up_epochs(&mut w.app, &core, &owner);
+        if n > 0 {
+            acc.count("world.distributor-has-epochs");
+        }
+    }
     check_all(acc, &mut w, "initial");
     for _ in 0..steps {
         let op = r.below(100);
@@ -527,7 +535,7 @@ pub fn run(ctx: &Ctx) -> (CheckMeta, Acc) {
         level: "exploration",
         rule: "sequences of creations through the factories, fresh instantiations, owner updates and factory-mediated updates (and direct updates after an ownership transfer) with every parameter on, just inside and just outside its bound at 1e-18 granularity: fee triples (each share in {0, 1e-18, .., 1-1e-18, 1, 1+1e-18, 2}, sums 1-1e-18 / 1 / above), trio amp and ramp targets around [1,1e6] and the 10x rule, two-asset stableswap amp, vault fees for plain / token-factory-style / cw20 assets, distributor grace period around [1,30] and around its current value, epoch duration around one day, lair growth rate around 1 and 0-3 bonding assets incl. a cw20, collector take rate around 1. After every attempt the Config{} of every contract created so far is read and checked against the documented bounds (trio amp at several blocks of the ramp); a rejected attempt leaves the chain state byte-identical. distinct = distinct (operation, validity class of the candidate) tuples.".to_string(),
         assumptions: vec!["token-factory asset = native denom starting with 'factory/'".into()],
-        obligations: vec!["check.G1.pair-fees".into(), "check.G1.trio-fees".into(), "check.G1.vault-fees".into(), "check.G2.pair-amp".into(), "check.G2.trio-amp".into(), "check.G3.token-factory-vault-burn-fee".into(), "check.G4.distributor".into(), "check.G5.lair".into(), "check.G6.collector".into(), "update.accepted".into(), "update.rejected".into(), "check.U1".into()],
+        obligations: vec!["check.G1.pair-fees".into(), "check.G1.trio-fees".into(), "check.G1.vault-fees".into(), "check.G2.pair-amp".into(), "check.G2.trio-amp".into(), "check.G3.token-factory-vault-burn-fee".into(), "check.G4.distributor".into(), "check.G5.lair".into(), "check.G6.collector".into(), "update.accepted".into(), "update.rejected".into(), "check.U1".into(), "world.distributor-has-epochs".into()],
     };
     (meta, total)
 }
